@@ -31,7 +31,7 @@ PROPERTY = "C13"
 HASHSEEDS = [11, 12, 13]
 
 SIZED_INT = [Int8(), Int16(), Int32(), Int64(), UInt8(), UInt16(), UInt32(), UInt64()]
-BASE = SIZED_INT + [Int(), Float32(), Float64(), Float(), Decimal(), Decimal(10, 2), Decimal(12, 4), String(), String(5), String(10), Enum("a", "b"),
+BASE = SIZED_INT + [Int(), Float32(), Float64(), Float(), Decimal(), Decimal(10, 2), Decimal(12, 4), Decimal(12, 6), Decimal(10, 4), String(), String(5), String(10), Enum("a", "b"),
                     Bool(), Date(), Datetime(), Time(), Duration(), NullType(), List(Int64()), List(String())]
 UNIVERSE = BASE + [ptypes.Const(t) for t in BASE]
 SUB20 = [t for t in UNIVERSE if repr(ptypes.without_const(t)) in
@@ -211,7 +211,7 @@ def check_op(opname, op, tier, stats):
         elif (real == "DataTypeError") != (out == "DataTypeError") and not out.startswith("EXC:") and not real.startswith("EXC:"):
             vs.append(viol("colfn-agrees-with-return_type", opname, sig, f"{out}!={real}", {}))
     # (2) uniformity
-    generic = {"Int": [tname(t) for t in SIZED_INT], "Float": ["Float32", "Float64"], tname(Decimal()): ["Decimal(10, 2)", "Decimal(12, 4)"]}
+    generic = {"Int": [tname(t) for t in SIZED_INT], "Float": ["Float32", "Float64"], tname(Decimal()): ["Decimal(10, 2)", "Decimal(12, 4)", "Decimal(12, 6)", "Decimal(10, 4)"]}
     for sig, out in tab.items():
         if not out.startswith("T:"):
             continue
@@ -239,6 +239,19 @@ def check_op(opname, op, tier, stats):
                 stats["uniformity_relations"] += 1
                 if o2 is not None and not o2.startswith("T:"):
                     vs.append(viol("const-accepted-where-column-is", opname, sig, f"pos{i}:{o2}", {"const": s2}))
+    # (2b) the type bound to the type variable can hold every argument it unifies (no silent narrowing)
+    for sig, out in tab.items():
+        if not out.startswith("T:") or out[2:] not in BY_NAME:
+            continue
+        r = BY_NAME[out[2:]]
+        for pos in tyvar_positions(op, len(sig)):
+            args = [BY_NAME[sig[i]] for i in pos]
+            if len({family(a) for a in args} | {family(r)}) != 1:
+                continue
+            stats["unification_relations"] += 1
+            bad = [tname(a) for a in args if not fits(a, r)]
+            if bad:
+                vs.append(viol("unified-type-holds-every-argument", opname, sig, f"{'+'.join(sorted(set(tname(ptypes.without_const(BY_NAME[sig[i]])) for i in pos)))}->{out[2:]}", {"does_not_fit": bad}))
     # parameters that every overload declares const reject column arguments
     for ar in arities(op, max_arity):
         for i in range(ar):
@@ -265,6 +278,52 @@ def check_op(opname, op, tier, stats):
                 vs.append(viol("permutation-determinism", opname, sig, f"{out}->{o2}", {"order": order}))
                 break
     return tab, vs
+
+
+_INT_RANGE = {"Int8": (-2**7, 2**7 - 1), "Int16": (-2**15, 2**15 - 1), "Int32": (-2**31, 2**31 - 1), "Int64": (-2**63, 2**63 - 1),
+              "UInt8": (0, 2**8 - 1), "UInt16": (0, 2**16 - 1), "UInt32": (0, 2**32 - 1), "UInt64": (0, 2**64 - 1)}
+
+
+def fits(a, r):
+    """reference rule, written independently of the library's conversion table: every value of
+    type ``a`` can be represented in type ``r`` (both of the same family)"""
+    a, r = ptypes.without_const(a), ptypes.without_const(r)
+    if isinstance(a, Decimal) and isinstance(r, Decimal):
+        return r.scale >= a.scale and r.precision - r.scale >= a.precision - a.scale
+    if a.is_int() and r.is_int():
+        if type(r) is Int:
+            return True
+        if type(a) is Int:
+            return False
+        (alo, ahi), (rlo, rhi) = _INT_RANGE[repr(a)], _INT_RANGE[repr(r)]
+        return rlo <= alo and ahi <= rhi
+    if a.is_float() and r.is_float():
+        order = {"Float32": 0, "Float64": 1, "Float": 2}
+        return order[repr(r)] >= order[repr(a)]
+    if isinstance(a, (String, Enum)) and isinstance(r, (String, Enum)):
+        if isinstance(r, Enum):
+            return isinstance(a, Enum) and set(a.categories) <= set(r.categories)
+        if isinstance(a, Enum):
+            return True if r.max_length is None else all(len(c) <= r.max_length for c in a.categories)
+        return r.max_length is None or (a.max_length is not None and a.max_length <= r.max_length)
+    return True
+
+
+def tyvar_positions(op, arity):
+    """positions that a signature of this arity with a type-variable result declares as the type variable"""
+    out = []
+    for sg in op.signatures:
+        if not isinstance(ptypes.without_const(sg.return_type), ptypes.Tyvar):
+            continue
+        types_ = list(sg.types)
+        if sg.is_vararg and len(types_) <= arity:
+            types_ = types_ + [types_[-1]] * (arity - len(types_))
+        if len(types_) != arity:
+            continue
+        pos = [i for i, p in enumerate(types_) if isinstance(ptypes.without_const(p), ptypes.Tyvar)]
+        if len(pos) >= 2:
+            out.append(pos)
+    return out
 
 
 def _family_follows_argument(a, b):
